@@ -130,7 +130,10 @@ theorem C04_transport_step_inv (t : Transport) (n : Nat) (op : TOp) (hv : t.Vali
       refine ⟨_, rfl, ?_, ?_⟩
       · cases r with
         | none => simp [ValidLoop, setLoopRegion]
-        | some r => obtain ⟨a, b⟩ := r; simpa [ValidLoop, setLoopRegion, TOp.Valid] using hop
+        | some r =>
+          obtain ⟨a, b⟩ := r
+          have hab : a < b ∧ b ≤ n := by simpa [TOp.Valid] using hop
+          simpa [ValidLoop, setLoopRegion, validLoop_some_of_lt a b hab.1] using hab
       · simp [Inside, setLoopRegion, hpl]
   | true =>
     have hin : t.position < n := hi hpl
@@ -139,7 +142,10 @@ theorem C04_transport_step_inv (t : Transport) (n : Nat) (op : TOp) (hv : t.Vali
       refine ⟨_, rfl, ?_, ?_⟩
       · cases r with
         | none => simp [ValidLoop, setLoopRegion]
-        | some r => obtain ⟨a, b⟩ := r; simpa [ValidLoop, setLoopRegion, TOp.Valid] using hop
+        | some r =>
+          obtain ⟨a, b⟩ := r
+          have hab : a < b ∧ b ≤ n := by simpa [TOp.Valid] using hop
+          simpa [ValidLoop, setLoopRegion, validLoop_some_of_lt a b hab.1] using hab
       · simpa [Inside, setLoopRegion] using hi
     | inc =>
       unfold Transport.apply
@@ -209,7 +215,8 @@ theorem C04_transport_inv (n : Nat) (ops : List TOp) (hops : ∀ op ∈ ops, op.
 /-- `Transport::new` starts inside the sound (forwards: `start < n`; reversed: always, when it does
     not underflow), playing, at the mirrored index when reversed. -/
 theorem C04_transport_new (start n : Nat) (lr : Option (Nat × Nat)) (rev : Bool) (h : start < n) :
-    ∃ t, Transport.new start lr rev n = .ok t ∧ t.Inside n ∧ t.playing = true ∧ t.loopRegion = lr
+    ∃ t, Transport.new start lr rev n = .ok t ∧ t.Inside n ∧ t.playing = true
+      ∧ t.loopRegion = Transport.validLoop lr
       ∧ t.position = if rev then n - 1 - start else start := by
   unfold Transport.new
   cases rev with
@@ -218,6 +225,37 @@ theorem C04_transport_new (start n : Nat) (lr : Option (Nat × Nat)) (rev : Bool
     have : start + 1 ≤ n := h
     simp only [if_true, this]
     exact ⟨_, rfl, fun _ => by simp; omega, rfl, rfl, rfl⟩
+
+/-- an empty or inverted loop region never reaches the wrap loops: after `new` and after
+    `set_loop_region` the transport has no loop region or one with `start < end` — for ANY requested
+    region (this is the repaired behaviour; before the fix such a region hung the audio thread). -/
+theorem C04_transport_loop_never_degenerate (lr : Option (Nat × Nat)) :
+    (∀ ls le, Transport.validLoop lr = some (ls, le) → ls < le)
+      ∧ (∀ t : Transport, ∀ ls le, (t.setLoopRegion lr).loopRegion = some (ls, le) → ls < le)
+      ∧ (∀ start rev n t ls le, Transport.new start lr rev n = .ok t → t.loopRegion = some (ls, le) → ls < le) := by
+  have h1 : ∀ ls le, Transport.validLoop lr = some (ls, le) → ls < le := by
+    intro ls le h
+    cases lr with
+    | none => simp at h
+    | some r =>
+      obtain ⟨a, b⟩ := r
+      by_cases hab : a < b
+      · rw [Transport.validLoop_some_of_lt a b hab] at h
+        simp only [Option.some.injEq, Prod.mk.injEq] at h
+        omega
+      · rw [Transport.validLoop_some_of_not_lt a b hab] at h; simp at h
+  refine ⟨h1, fun t ls le h => h1 ls le (by simpa [Transport.setLoopRegion] using h), ?_⟩
+  intro start rev n t ls le hnew hl
+  unfold Transport.new at hnew
+  cases rev with
+  | false =>
+    simp only [Bool.false_eq_true, if_false, Except.ok.injEq] at hnew
+    subst hnew; exact h1 ls le hl
+  | true =>
+    simp only [if_true] at hnew
+    split at hnew
+    · simp only [Except.ok.injEq] at hnew; subst hnew; exact h1 ls le hl
+    · simp at hnew
 
 /-- non-vacuity: a 5-frame sound looping [1,4) walks 0 1 2 3 1 2 3 … -/
 example : Transport.applyAll ⟨0, some (1, 4), true⟩ 5 [.inc, .inc, .inc, .inc, .inc] = .ok ⟨2, some (1, 4), true⟩ := by
